@@ -5,7 +5,7 @@ from .. import cv, gen, lib, ref
 from ..lib import call
 
 PROP = "C11"
-PLAN = {"quick": (1000, 400), "thorough": (72000, 3600)}
+PLAN = {"quick": (1000, 400), "thorough": (20000, 3600)}
 LARGE = (0.02, 19)  # (share, largest size) of the large class of gen.kv: 17+ control points, degree up to 8
 STEP_BUDGET = 20_000_000  # loop line events per outermost call: ten times the default, for the large class
 RULE = ("case = (source polynomial curve C, target knot vector S on the same interval, optional interpolation nodes); "
